@@ -88,6 +88,11 @@ var c10Templates = []string{
 	`((lambda (&key p q) p) :x1 1 :x2 2 :x3 3 :x4 4 :x5 5 :x6 6)`,
 	`(s:validate (s:make-validator s:sorted-map (s:no-other-keys (s:has-key "a"))) (sorted-map "a" 1 "z1" 1 "z2" 2 "z3" 3 "z4" 4 "z5" 5))`,
 	`(json:load-string "{\"a\":1,\"a\":2,\"b\":[}")`,
+	// several children of one container fail: which failure is reported must not depend on map order
+	`(json:load-string "{\"k1\":9223372036854775808,\"k2\":99999999999999999999,\"k3\":18446744073709551616,\"k4\":9223372036854775809,\"k5\":-9223372036854775809,\"k6\":123456789012345678901234}" :exact-integers true)`,
+	`(json:load-bytes (to-bytes "[1,{\"p\":{\"x\":-9223372036854775810,\"y\":9223372036854775811,\"z\":9223372036854775812,\"w\":9223372036854775813},\"q\":9223372036854775814}]") :exact-integers true)`,
+	`(json:dump-string (sorted-map "k1" (mk-adder 1) "k2" car "k3" (mk-adder 2) "k4" (gensym) "k5" (new point 1 2)))`,
+	`(s:validate (s:make-validator s:sorted-map (s:has-key "a" s:int) (s:has-key "b" s:int) (s:has-key "c" s:int) (s:has-key "d" s:int) (s:has-key "e" s:int)) (sorted-map "a" "x" "b" 1.5 "c" () "d" 'q "e" (vector)))`,
 }
 
 func c10Program(w interface{ RNG(int, string) *fw.RNG }, idx int) (src, label string, feats map[string]bool) {
